@@ -312,7 +312,7 @@ Proof.
   intro Hb. unfold bloom_of_bytes, bloom_log_bytes. rewrite be_val_be_bytes.
   apply N.mod_small. unfold logs_bloom_bytes.
   replace (256 ^ N.of_nat 256) with (2 ^ 2048); [exact Hb|].
-  change 256 at 1 with (2 ^ 8). rewrite <- N.pow_mul_r. reflexivity.
+  change 256 with (2 ^ 8) at 1. rewrite <- N.pow_mul_r. reflexivity.
 Qed.
 
 (* blooms built by the model stay below 2^2048 *)
@@ -404,11 +404,8 @@ Example ex_no_false_negative_hyps :
               (map (bloom_of ex_H) [ex_l1; ex_l2]) /\
   contain (bloom_of ex_H ex_l2) (item_mask ex_H (indexed_item 2 [1; 2])) = false.
 Proof.
-  repeat split.
-  - now left.
-  - cbn. right. right. now left.
-  - cbn [mt_leaves map app]. apply perm_swap.
-  - vm_compute. reflexivity.
+  split; [now left|]. split; [cbn; right; right; now left|].
+  split; [cbn [mt_leaves map app]; apply perm_swap|vm_compute; reflexivity].
 Qed.
 
 Example ex_codec_hyp : forall x, bytes_ok x = true -> (fun y => Some y) ((fun y : bytes => y) x) = Some x.
